@@ -7,8 +7,10 @@ package homesim
 
 import (
 	"bytes"
+	"context"
 	"fmt"
 	"io"
+	"net"
 	"net/http"
 	"net/http/httptest"
 	"os"
@@ -18,6 +20,14 @@ import (
 	"github.com/AdguardTeam/AdGuardHome/internal/home"
 	"github.com/AdguardTeam/AdGuardHome/verifsim/kernel"
 )
+
+// Package net initialises its resolver configuration lazily, with a channel
+// that would belong to the bubble of whichever case happens to trigger it
+// first (dnsforward.NewServer looks at the system resolvers) and would be
+// unusable from the next bubble.  Trigger it here, outside any bubble.
+func init() {
+	_, _ = net.DefaultResolver.LookupHost(context.Background(), "localhost")
+}
 
 // Credentials of the only administrator of every simulated node.
 const (
